@@ -5,6 +5,7 @@ import sys
 
 sys.path.insert(0, os.path.dirname(os.path.dirname(os.path.abspath(__file__))))
 from verif_static.core import run_check, AnalysisError  # noqa
+from verif_static.norm import same, same_stmt  # noqa
 from verif_static import model as M, cfg as C  # noqa
 
 NB = 'pysph/base/nnps_base.pyx'
@@ -378,7 +379,7 @@ def rule_builders(chk, cls):
                                detail_bad='images created by earlier axes are not re-imaged across the %s %s face (edges/corners missing)' % (axis, side),
                                detail_ok='present')
         # layer thickness
-        chk.decide(compact(b.layer_def) in ('self.n_layers*self.cell_size', 'self.cell_size*self.n_layers'), 'layer-thickness',
+        chk.decide(same(b.layer_def, 'self.n_layers*self.cell_size'), 'layer-thickness',
                    fname, node=fn, file=NB, func=fname,
                    detail_bad='ghost layer is %s, expected n_layers*cell_size' % U(b.layer_def), detail_ok=U(b.layer_def))
         # per-array accumulators: every list appended to and consumed in the array loop is reset at the head of each pass
@@ -529,10 +530,10 @@ def rule_cell_size(chk, cls):
     fn = M.find_func(cls, '_compute_cell_size_for_binning')
     asg = dict((U(a.targets[0]), a) for a in ast.walk(fn) if isinstance(a, ast.Assign))
     cs = [a for a in ast.walk(fn) if isinstance(a, ast.Assign) and U(a.targets[0]) == 'cell_size' and 'radius_scale' in U(a.value)]
-    ok = bool(cs) and compact(cs[0].value) in ('self.radius_scale*hmax', 'hmax*self.radius_scale')
+    ok = bool(cs) and same(cs[0].value, 'self.radius_scale*hmax')
     chk.decide(ok, 'layer-thickness', 'cell_size=radius_scale*hmax', node=cs[0] if cs else fn, file=NB,
                func='_compute_cell_size_for_binning', detail_bad='cell size is %s' % (U(cs[0].value) if cs else None), detail_ok='radius_scale*hmax')
-    folds = [i for i in ast.walk(fn) if isinstance(i, ast.If) and compact(i.test) == '_hmax>hmax']
+    folds = [i for i in ast.walk(fn) if isinstance(i, ast.If) and same(i.test, '_hmax>hmax')]
     src = [a for a in ast.walk(fn) if isinstance(a, ast.Assign) and U(a.targets[0]) == '_hmax' and compact(a.value) == 'h.maximum']
     loop = [l for l in ast.walk(fn) if isinstance(l, ast.For)]
     ok = bool(folds) and bool(src) and bool(loop) and compact(loop[0].iter) in ('pa_wrappers', 'self.pa_wrappers')
